@@ -2524,6 +2524,12 @@ bool unitsAreEquivalent(const ModelPtr &model,
     hints = "";
     multiplier = 0.0;
 
+    // Units with a cyclic definition (reported on their own) are not equivalent
+    // to anything.
+    if (hasUnitsCycle(model->units(v1->units()->name())) || hasUnitsCycle(model->units(v2->units()->name()))) {
+        return false;
+    }
+
     std::string v1UnitsName = v1->units()->name();
     if (model->hasUnits(v1UnitsName)) {
         UnitsPtr u1 = Units::create();
